@@ -167,7 +167,7 @@ func cmdUnits(args []string) {
 			fmt.Printf("%-60s ASSUMED (%s)\n", u.Name, res.Skipped)
 			continue
 		}
-		outs := dischargeAll(s, res.Obls, 8)
+		outs := dischargeAll(s, res.Obls, 5)
 		agg := aggregate(outs)
 		nOK, nFail, nUnk, nVac := 0, 0, 0, 0
 		for _, a := range agg {
